@@ -12,6 +12,7 @@ mod tree_stream;
 mod util;
 mod witness;
 mod world;
+mod xfer_stream;
 mod wrappers;
 use util::*;
 
@@ -63,6 +64,7 @@ fn main() {
         "sched" => sched_stream::run(&o),
         "hostile" => hostile_stream::run(&o),
         "async" => async_stream::run(&o),
+        "xfer" => xfer_stream::run(&o),
         "replay" => replay::run(&o),
         "witness" => witness::run(&o),
         s => {
